@@ -79,7 +79,10 @@ def opt(ex, tag, maker):
 
 
 def lazy_timer(ex, P):
-    return ex.new_object(GTimer(ex.fresh_bool("armed"), P.timeout, None, present=ex.fresh_bool("timer_present")))
+    """'None or a handle' for the segments of the requesting task: represented as a handle that may be dead.  The code
+    under verification uses the truth value of _timer only to guard cancel() / logging, for which a dead handle and None
+    behave alike; the callback segments, where the distinction could matter, enumerate None and handle explicitly."""
+    return ex.new_object(GTimer(ex.fresh_bool("armed"), P.timeout, None, present=True))
 
 
 def lazy_exc(ex):
@@ -178,6 +181,12 @@ def timer_obligations(ex, P, g, evs, old_timer):
             h = e[3]
             ok = h is P._timer or h.armed is False
             ex.check("C05_C06_armed_timer_is_remembered", bool(ok))
+    if old_timer is not None and old_timer is not P._timer:
+        # the handle the object remembered at the start of the segment was replaced or dropped: it must not be armed
+        a, pr = old_timer.armed, old_timer.present
+        at = bterm(a) if not isinstance(a, bool) else z3.BoolVal(a)
+        pt = bterm(pr) if not isinstance(pr, bool) else z3.BoolVal(pr)
+        ex.check("C05_no_armed_timeout_is_forgotten", mk_bool(z3.Not(z3.And(at, pt))))
 
 
 def lock_obligations(ex, g):
@@ -253,6 +262,7 @@ def callback_segment(ex, kind, which):
     retry0, tx0, fut0, cmd0 = P._retry, g.tx, P.response_future, P.command
     fstate0 = fut0.state if fut0 is not None else None
     partial0, missing0 = P._partial_data, P._partial_missing
+    timer0 = P._timer
     ev0 = len(g.events)
     ex.inputs = {"which": which, "retry": retry0, "retries": P.retries, "fstate": fstate0 if fstate0 is not None else -1}
     args = []
@@ -286,7 +296,7 @@ def callback_segment(ex, kind, which):
         return
     evs = g.events[ev0:]
     check_inv_tagged(ex, P, g)
-    timer_obligations(ex, P, g, evs, None)
+    timer_obligations(ex, P, g, evs, timer0)
     # frame: what a callback must leave alone
     got_result = any(e[0] == "set_result" for e in evs)
     same_retry = ex.compare(_EQ, P._retry, retry0)
@@ -355,7 +365,7 @@ def rely(ex, what):
     for name, c in invariant(ex, P, g):
         ex.check(f"{tag_of(name)}_{name}_before_suspension", c)
     start = getattr(g, "seg_start", 0)
-    timer_obligations(ex, P, g, g.events[start:], None)       # per atomic segment
+    timer_obligations(ex, P, g, g.events[start:], getattr(g, "seg_timer", None))       # per atomic segment
     g.seg_start = len(g.events)
     # timers, fragments, transport, future state, armed count
     P._timer = lazy_timer(ex, P)
@@ -390,6 +400,7 @@ def rely(ex, what):
             was_pending = z3.BoolVal(old == PENDING) if isinstance(old, int) else iterm(old) == PENDING
             P._retry = mk_int(z3.If(z3.And(was_pending, st.t == RESULT), z3.IntVal(0), iterm(P._retry)))
     g.armed = ex.fresh_int("armed_count")
+    g.seg_timer = P._timer
     for name, c in invariant(ex, P, g):
         ex.assume(c)
 
@@ -406,6 +417,7 @@ def send_request_segment(ex, kind, case=None, entry=None):
     ex.unit = f"{type(P).__name__}.send_request"
     g.suspensions.append(rely)
     g.on_tx.append(tx_obligations)
+    g.seg_timer = P._timer
     cmd = make_command(ex, "newcmd")
     # requires (single requesting task): the previous request on this object has finished
     if P.response_future is not None:
@@ -420,7 +432,7 @@ def send_request_segment(ex, kind, case=None, entry=None):
     except PyRaise as pr:
         raised = pr.exc
     lock_obligations(ex, g)
-    timer_obligations(ex, P, g, g.events[getattr(g, "seg_start", 0):], None)
+    timer_obligations(ex, P, g, g.events[getattr(g, "seg_start", 0):], getattr(g, "seg_timer", None))
     if entry == "other":
         # cancelled while queued behind another task's request: that request must not be disturbed
         lk = P._lock
@@ -432,7 +444,7 @@ def send_request_segment(ex, kind, case=None, entry=None):
             return
         raise interp.PathEnd()       # the lock was obtained after the holder finished: covered by the other entries
     # ---- every exit
-    ex.check("C05_retry_budget_restored_on_every_exit", ex.compare(_EQ, P._retry, 0),
+    ex.check("C04_C05_retry_budget_restored_on_every_exit", ex.compare(_EQ, P._retry, 0),
              detail=f"exit with _retry={P._retry}; " + ("returned" if raised is None else f"raised {type(raised).__name__}"))
     used = iterm(g.tx) - iterm(tx0)
     ex.check("C04_transmissions_bounded_by_retry_budget",
@@ -453,6 +465,14 @@ def send_request_segment(ex, kind, case=None, entry=None):
                  detail=f"{type(raised).__name__}: {raised}")
         return
     # ---- normal return: a finished future, either the validated answer or MaxRetriesException
+    if isinstance(result, GFuture) and result.exc is MaxRetriesException and result.state == EXCEPTION:
+        failed = g.connect_failed
+        cf = getattr(g, "callee_connect_failed", None)
+        exact = mk_bool(used == iterm(P.retries) - iterm(r0) + 1)
+        if not failed:
+            if cf is not None:
+                exact = mk_bool(z3.Or(cf.t, used == iterm(P.retries) - iterm(r0) + 1))
+            ex.check("C04_silent_peer_gets_exactly_retries_plus_one_transmissions", exact)
     ok = isinstance(result, GFuture)
     ex.check("C04_returns_a_finished_future", ok and (
         (result.state != PENDING) if isinstance(result.state, int) else ex.known(iterm(result.state) != PENDING)))
@@ -533,6 +553,7 @@ def _callee_effect(ex, P, g):
     k = ex.fresh_int("callee_tx")
     ex.assume(mk_bool(z3.And(k.t >= 0, k.t <= iterm(P.retries) - iterm(r_in) + 1)))
     g.tx = mk_int(iterm(g.tx) + k.t)
+    g.callee_tx, g.callee_budget = k, mk_int(iterm(P.retries) - iterm(r_in) + 1)
     P._retry = 0
     if P._lock is None:
         P._lock = ex.new_object(GLock(False, 0))
@@ -549,7 +570,10 @@ def _callee_effect(ex, P, g):
         keep = ka if isinstance(ka, bool) else ex.branch(bterm(ka), tag="keep_alive")
         if not keep:
             raise interp.Infeasible()          # proved exit post: nothing open without keep-alive
+    if P._timer is not None:
+        P._timer.armed = False       # callee's proved post: the handle it found was cancelled or is still remembered
     P._timer = lazy_timer(ex, P)
+    g.seg_timer = P._timer
     P._partial_data = MaybeBytes(ex.fresh_bool("partial_present"))
     P._partial_missing = ex.fresh_int("missing")
     g.armed = ex.fresh_int("armed_count")
@@ -564,6 +588,10 @@ def send_request_result(ex, bound):
     if ex.choose(2, tag="callee.outcome") == 1:
         f.state = EXCEPTION
         f.exc = MaxRetriesException
+        # proved for the body: retries exhausted without a connect failure means every attempt was transmitted
+        cf = ex.fresh_bool("callee_connect_failed")
+        g.callee_connect_failed = cf
+        ex.assume(mk_bool(z3.Or(cf.t, iterm(g.callee_tx) == iterm(g.callee_budget))))
     else:
         f.value = SBytes.fresh(ex, "answer")
         g.validated.append((f.value, True))
